@@ -670,7 +670,7 @@ func c19SweepRun(x *explore.Ctx) {
 func init() {
 	register("C19", &explore.Scenario{
 		ID: "C19", Name: "packet parser vs RFC-offset reference, every length x protocol", Level: "exploration",
-		Rule: "case = family x IP-layer length 1..60 (the production source delivers min(frame, 54+offset)-offset bytes); execution = one of all 256 protocol numbers; inside: 8 fragment fields (v4) x 3 address pairs and their mirrors x port pairs (40x40 boundary alphabet for TCP/UDP: common-port table entries, neighbours, table byte boundaries, byte aliases, ephemeral boundary) x all 256 TCP flag bytes / ICMP types; every packet and its mirror image parsed by the real ParsePacketV4/V6 (transitions = parser calls). non-trivial = outcome classes reached (both ports kept, sport dropped, dport dropped, both common, portless protocol, fragment, truncated, ESP fragment accepted, short header), distinct per case",
+		Rule:     "case = family x IP-layer length 1..60 (the production source delivers min(frame, 54+offset)-offset bytes); execution = one of all 256 protocol numbers; inside: 8 fragment fields (v4) x 3 address pairs and their mirrors x port pairs (40x40 boundary alphabet for TCP/UDP: common-port table entries, neighbours, table byte boundaries, byte aliases, ephemeral boundary) x all 256 TCP flag bytes / ICMP types; every packet and its mirror image parsed by the real ParsePacketV4/V6 (transitions = parser calls). non-trivial = outcome classes reached (both ports kept, sport dropped, dport dropped, both common, portless protocol, fragment, truncated, ESP fragment accepted, short header), distinct per case",
 		Cases:    func(string) int { return 2 * pkMaxLen },
 		Bound:    func(string) int { return 0 },
 		Run:      c19Run,
@@ -680,11 +680,11 @@ func init() {
 	})
 	register("C19.sweep", &explore.Scenario{
 		ID: "C19", Name: "packet parser, all source/destination port pairs", Level: "exploration",
-		Rule: "case = family x {TCP,UDP} x 64 source-port blocks, 16 executions per case; inside one execution a loop over its source ports x all 65536 destination ports (thorough: all 2^32 pairs per family and protocol; quick: pairs with at least one port from the 40-port boundary alphabet): full 54-byte packet and its mirror image through the real parser, compared with the reference key and Reverse(); transitions = parser calls; non-trivial = distinct (source port, outcome class) met",
-		Cases:    func(string) int { return 4 * c19SweepBlocks },
-		Bound:    func(string) int { return 0 },
-		Run:      c19SweepRun,
-		PanicSig: "panic",
+		Rule:        "case = family x {TCP,UDP} x 64 source-port blocks, 16 executions per case; inside one execution a loop over its source ports x all 65536 destination ports (thorough: all 2^32 pairs per family and protocol; quick: pairs with at least one port from the 40-port boundary alphabet): full 54-byte packet and its mirror image through the real parser, compared with the reference key and Reverse(); transitions = parser calls; non-trivial = distinct (source port, outcome class) met",
+		Cases:       func(string) int { return 4 * c19SweepBlocks },
+		Bound:       func(string) int { return 0 },
+		Run:         c19SweepRun,
+		PanicSig:    "panic",
 		Assumptions: []string{"one address pair and one flag byte in the all-pairs sweep (both are varied exhaustively against the port alphabet in scenario C19)"},
 	})
 }
